@@ -337,3 +337,13 @@ pub fn d057(xs: &[f64], ns: &[i64], a: f64, b: f64, i: i64, j: i64, u: usize) ->
 pub fn d058(xs: &[f64], ns: &[i64], a: f64, b: f64, i: i64, j: i64, u: usize) -> Vec<i64> { let mut v = ns.to_vec(); v.sort_by(|p, q| q.abs().cmp(&p.abs()).then(p.cmp(q))); v }
 pub fn d059(xs: &[f64], ns: &[i64], a: f64, b: f64, i: i64, j: i64, u: usize) -> Option<usize> { (a > 0.0).then(|| u + 1).or((b > 0.0).then_some(7)) }
 pub fn d060(xs: &[f64], ns: &[i64], a: f64, b: f64, i: i64, j: i64, u: usize) -> (i64, i64) { let mut a1 = [1i64, 2, 3]; let mut b1 = [9i64, 8, 7]; a1.swap(0, 2); std::mem::swap(&mut a1, &mut b1); a1[1] += i; (a1.iter().sum(), b1[0]) }
+
+// ------------------------------------------------------------------ third batch: variant constructors as functions, assorted
+pub fn g001(xs: &[f64], ns: &[i64], a: f64, b: f64, i: i64, j: i64, u: usize) -> Vec<Option<i64>> { ns.iter().copied().map(Some).collect() }
+pub fn g002(xs: &[f64], ns: &[i64], a: f64, b: f64, i: i64, j: i64, u: usize) -> Result<i64, u8> { ns.get(u).copied().map(Ok).unwrap_or(Err(9)) }
+pub fn g003(xs: &[f64], ns: &[i64], a: f64, b: f64, i: i64, j: i64, u: usize) -> i64 { let v: Vec<E> = ns.iter().copied().map(E::B).collect(); v.iter().map(|e| if let E::B(k) = e { *k } else { 0 }).sum() }
+pub fn g004(xs: &[f64], ns: &[i64], a: f64, b: f64, i: i64, j: i64, u: usize) -> Result<f64, i64> { xs.get(u).copied().ok_or(i).map_err(|e| e * 2) }
+pub fn g005(xs: &[f64], ns: &[i64], a: f64, b: f64, i: i64, j: i64, u: usize) -> Option<f64> { xs.iter().copied().map(f64::abs).reduce(f64::min) }
+pub fn g006(xs: &[f64], ns: &[i64], a: f64, b: f64, i: i64, j: i64, u: usize) -> Vec<i64> { ns.iter().copied().map(i64::abs).map(|x| x.pow(2)).collect() }
+pub fn g007(xs: &[f64], ns: &[i64], a: f64, b: f64, i: i64, j: i64, u: usize) -> (i64, i64) { let (mut lo, mut hi) = (i64::MAX, i64::MIN); ns.iter().for_each(|&x| { lo = lo.min(x); hi = hi.max(x); }); (lo, hi) }
+pub fn g008(xs: &[f64], ns: &[i64], a: f64, b: f64, i: i64, j: i64, u: usize) -> usize { ns.iter().filter(|&&x| x > 0).map(|_| 1usize).sum::<usize>() + xs.iter().rev().position(|&x| x > 1.0).unwrap_or(0) }
